@@ -33,12 +33,19 @@ impl Drop for RouterSocket {
 impl Socket for RouterSocket {
     fn with_options(options: SocketOptions) -> Self {
         let fair_queue = FairQueue::new(true);
+        let backend = Arc::new(GenericSocketBackend::with_options(
+            Some(fair_queue.inner()),
+            SocketType::ROUTER,
+            options,
+        ));
+        let weak_backend = Arc::downgrade(&backend);
+        fair_queue.on_stream_end(move |peer_id| {
+            if let Some(backend) = weak_backend.upgrade() {
+                backend.peer_disconnected(peer_id);
+            }
+        });
         Self {
-            backend: Arc::new(GenericSocketBackend::with_options(
-                Some(fair_queue.inner()),
-                SocketType::ROUTER,
-                options,
-            )),
+            backend,
             binds: HashMap::new(),
             fair_queue,
         }
